@@ -27,6 +27,7 @@ import sys
 import tempfile
 
 from zope.interface import Interface, implementedBy, providedBy, directlyProvides, alsoProvides
+from zope.interface import noLongerProvides, directlyProvidedBy
 from zope.interface import declarations as D
 from zope.interface.interface import InterfaceClass
 
@@ -51,37 +52,72 @@ INST_GLOBALS = {("copy_reg", "_reconstructor"), ("copyreg", "_reconstructor"), (
                 ("builtins", "object"), ("copyreg", "__newobj__"), ("copy_reg", "__newobj__")}
 
 
+def parse_op(op):
+    """op = [kind, target, arg, *extras]; extras: a bool = alternative spelling, a list [start, len]
+    = that slice of the interface list is passed wrapped in one Declaration(...)."""
+    alt, wrap = False, None
+    for e in op[3:]:
+        if isinstance(e, bool):
+            alt = e
+        elif isinstance(e, list):
+            wrap = e
+    return op[0], (op[1] if len(op) > 1 else None), (op[2] if len(op) > 2 else None), alt, wrap
+
+
+def ifs_expr(ids, wrap, name="I%d"):
+    """Source text of an interface argument list, with the optional Declaration(...) group."""
+    parts, i = [], 0
+    while i < len(ids):
+        if wrap and i == wrap[0] and wrap[1] > 0:
+            parts.append("Declaration(%s)" % ", ".join(name % j for j in ids[i:i + wrap[1]]))
+            i += wrap[1]
+        else:
+            parts.append(name % ids[i])
+            i += 1
+    return ", ".join(parts)
+
+
 def module_source(case):
     L = ["import os",
          "from zope.interface import Interface, classImplements, classImplementsOnly, classImplementsFirst",
          "from zope.interface import directlyProvides, implementer, implementer_only, provider, implementedBy",
+         "from zope.interface import alsoProvides, noLongerProvides, directlyProvidedBy",
+         "from zope.interface.declarations import Declaration",
          ""]
+    builtin = case.get("builtin", {})
     for i, bases in enumerate(case["ifaces"]):
         bs = ", ".join("I%d" % b for b in bases) or "Interface"
         L.append("class I%d(%s):\n    def m%d(x):\n        'method of I%d'\n" % (i, bs, i, i))
     for c, bases in enumerate(case["classes"]):
+        if str(c) in builtin:
+            L.append("C%d = %s\n" % (c, builtin[str(c)]))
+            continue
         bs = ", ".join("C%d" % b for b in bases)
         L.append("class C%d(%s):\n    def meth%d(self):\n        return %d\n" % (c, bs, c, c))
     names = []
     for k, op in enumerate(case["ops"]):
-        kind = op[0]
-        alt = bool(op[-1]) if isinstance(op[-1], bool) else False
+        kind, tgt, arg, alt, wrap = parse_op(op)
         body = None
         if kind == "impl":
-            ifs = ", ".join("I%d" % i for i in op[2])
-            body = ("implementer(%s)(C%d)" % (ifs, op[1])) if alt else ("classImplements(C%d, %s)" % (op[1], ifs))
+            ifs = ifs_expr(arg, wrap)
+            body = ("implementer(%s)(C%d)" % (ifs, tgt)) if alt else ("classImplements(C%d, %s)" % (tgt, ifs))
         elif kind == "only":
-            ifs = ", ".join("I%d" % i for i in op[2])
-            body = ("implementer_only(%s)(C%d)" % (ifs, op[1])) if alt else ("classImplementsOnly(C%d, %s)" % (op[1], ifs))
+            ifs = ifs_expr(arg, wrap)
+            body = ("implementer_only(%s)(C%d)" % (ifs, tgt)) if alt else ("classImplementsOnly(C%d, %s)" % (tgt, ifs))
         elif kind == "first":
-            body = "classImplementsFirst(C%d, I%d)" % (op[1], op[2])
+            body = "classImplementsFirst(C%d, I%d)" % (tgt, arg)
         elif kind == "cprov":
-            ifs = ", ".join("I%d" % i for i in op[2])
-            body = ("provider(%s)(C%d)" % (ifs, op[1])) if alt else ("directlyProvides(C%d, %s)" % (op[1], ifs))
+            ifs = ifs_expr(arg, wrap)
+            body = ("provider(%s)(C%d)" % (ifs, tgt)) if alt else ("directlyProvides(C%d, %s)" % (tgt, ifs))
+        elif kind == "cap":
+            ifs = ifs_expr(arg, wrap)
+            body = ("directlyProvides(C%d, directlyProvidedBy(C%d), %s)" % (tgt, tgt, ifs)) if alt \
+                else ("alsoProvides(C%d, %s)" % (tgt, ifs))
+        elif kind == "cnl":
+            body = "try:\n        noLongerProvides(C%d, I%d)\n    except ValueError:\n        pass" % (tgt, arg)
         elif kind == "iby":
-            body = "implementedBy(C%d)" % op[1]
+            body = "implementedBy(C%d)" % tgt
         if body is not None:
-            body = body.replace(", )", ")")
             L.append("def _op_%d():\n    %s\n" % (k, body))
             names.append("_op_%d" % k)
     L.append("_CLASS_OPS = [%s]" % ", ".join(names))
@@ -180,7 +216,23 @@ def safe(f, default=False):
         return default
 
 
+def forget_builtins(case):
+    """Declarations on built-in types are process-global (BuiltinImplementationSpecifications):
+    drop them before and after every case that uses such a type."""
+    import builtins
+    for name in case.get("builtin", {}).values():
+        D.BuiltinImplementationSpecifications.pop(getattr(builtins, name), None)
+
+
 def run_case(k, case, tmpdir, mode):
+    forget_builtins(case)
+    try:
+        return run_case_(k, case, tmpdir, mode)
+    finally:
+        forget_builtins(case)
+
+
+def run_case_(k, case, tmpdir, mode):
     modname = "zi_c13_%d" % k
     with open(os.path.join(tmpdir, modname + ".py"), "w") as fh:
         fh.write(module_source(case))
@@ -193,14 +245,33 @@ def run_case(k, case, tmpdir, mode):
         for j, v in enumerate(attrs):
             setattr(o, "a%d" % j, v)
         insts.append(o)
+    def args_of(ids, wrap):
+        out, i = [], 0
+        while i < len(ids):
+            if wrap and i == wrap[0] and wrap[1] > 0:
+                out.append(D.Declaration(*[N.ifaces[j] for j in ids[i:i + wrap[1]]]))
+                i += wrap[1]
+            else:
+                out.append(N.ifaces[ids[i]])
+                i += 1
+        return out
+
     for kk, op in enumerate(case["ops"]):
-        kind = op[0]
-        if kind in ("impl", "only", "first", "cprov", "iby"):
+        kind, tgt, arg, alt, wrap = parse_op(op)
+        if kind in ("impl", "only", "first", "cprov", "cap", "cnl", "iby"):
             getattr(mod, "_op_%d" % kk)()
         elif kind == "dp":
-            directlyProvides(insts[op[1]], *[N.ifaces[i] for i in op[2]])
+            directlyProvides(insts[tgt], *args_of(arg, wrap))
         elif kind == "ap":
-            alsoProvides(insts[op[1]], *[N.ifaces[i] for i in op[2]])
+            if alt:
+                directlyProvides(insts[tgt], directlyProvidedBy(insts[tgt]), *args_of(arg, wrap))
+            else:
+                alsoProvides(insts[tgt], *args_of(arg, wrap))
+        elif kind == "nl":
+            try:
+                noLongerProvides(insts[tgt], N.ifaces[arg])
+            except ValueError:
+                pass
         elif kind == "gc":
             gc.collect()
         else:
@@ -222,8 +293,14 @@ def run_case(k, case, tmpdir, mode):
     for o, x in enumerate(insts):
         items.append(("inst", o, x))
 
-    allowed_globals = {(modname, "I%d" % i) for i in range(len(N.ifaces))} | \
-                      {(modname, "C%d" % c) for c in range(len(N.classes))}
+    allowed_globals = {(modname, "I%d" % i) for i in range(len(N.ifaces))}
+    for x in N.classes:
+        allowed_globals.add((x.__module__, x.__qualname__))
+        if x.__module__ == "builtins":
+            # protocols 0..2 write the Python 2 spelling of the same name (fix_imports)
+            import _compat_pickle
+            allowed_globals.add(_compat_pickle.REVERSE_NAME_MAPPING.get(
+                (x.__module__, x.__qualname__), ("__builtin__", x.__qualname__)))
     out_items, job_items = [], []
     for kind, ref, x in items:
         is_inst = kind == "inst"
@@ -274,7 +351,8 @@ def run_case(k, case, tmpdir, mode):
     names = {"module": modname,
              "inames": [[x.__module__, x.__name__] for x in N.ifaces],
              "cnames": [[x.__module__, x.__qualname__] for x in N.classes]}
-    job = {"module": modname, "nif": len(N.ifaces), "ncl": len(N.classes), "items": job_items}
+    job = {"module": modname, "nif": len(N.ifaces), "ncl": len(N.classes), "items": job_items,
+           "builtin": list(case.get("builtin", {}).values())}
     return {"names": names, "items": out_items}, job
 
 
